@@ -62,6 +62,15 @@ var cliDocs = map[string]string{
 
 // argv: the command line of an invocation. The words come from the specification (Cli.tla: Argv = Words(Lexed(inv)),
 // the grammar with its aliases and spellings); the construction below is only used for invocations built by hand.
+func init() {
+	// "big": more than 1 MiB, tens of thousands of small roots (the order of the roots is observable)
+	var sb strings.Builder
+	for i := 0; sb.Len() < 1200000; i++ {
+		fmt.Fprintf(&sb, "- r%05d\n  - c%d\n", i, i%7)
+	}
+	cliDocs["big"] = sb.String()
+}
+
 func (inv cliInv) argv() []string {
 	if inv.Argv != nil || inv.Sub == "none" {
 		return inv.Argv
@@ -143,7 +152,7 @@ func runCLI(bin, dir string, inv cliInv) cliRun {
 		os.Remove(f.Name())
 		cmd.Stdout = f // a closed descriptor: every write fails with EBADF
 	}
-	out := cliRun{Argv: inv.argv(), Stdin: doc}
+	out := cliRun{Argv: inv.argv(), Stdin: clip(doc, 4000)}
 	done := make(chan error, 1)
 	if err := cmd.Start(); err != nil {
 		// exec refuses a closed *os.File: emulate with a pipe whose read end is closed
@@ -421,7 +430,9 @@ func checkCLIState(r *evid.Run, bin string, pool *wproto.Pool, s *cliState) {
 		hist = append(hist, "gtree "+strings.Join(h.argv(), " ")+" <"+h.Doc+" >"+h.Stdout)
 	}
 	desc := strings.Join(hist, " ; ")
-	rec := map[string]any{"history": hist, "last": run, "expected": map[string]any{"exit0": s.Exit0, "why": s.Why, "made": s.Made}}
+	runRec := run
+	runRec.Stdout = clip(run.Stdout, 4000)
+	rec := map[string]any{"history": hist, "last": runRec, "expected": map[string]any{"exit0": s.Exit0, "why": s.Why, "made": s.Made}}
 	// never a crash
 	if run.Signal || run.Exit < 0 || strings.Contains(run.Stderr, "panic:") || strings.Contains(run.Stderr, "goroutine ") {
 		r.Mismatch("cli:crash:"+inv.Sub+":"+inv.Doc, fmt.Sprintf("%s: exit=%d stderr=%q", desc, run.Exit, firstLine(run.Stderr)), rec)
@@ -468,7 +479,7 @@ func checkCLIState(r *evid.Run, bin string, pool *wproto.Pool, s *cliState) {
 			same = sortedLines(run.Stdout) == sortedLines(lib.Out)
 		}
 		if !same {
-			r.Mismatch("cli:stdout-differs-from-library:"+inv.Sub, fmt.Sprintf("%s: cli=%q library=%q", desc, run.Stdout, lib.Out), rec)
+			r.Mismatch("cli:stdout-differs-from-library:"+inv.Sub, fmt.Sprintf("%s: cli=%q library=%q", desc, clip(run.Stdout, 1500), clip(lib.Out, 1500)), rec)
 		}
 		if (lib.Class == "ok") != (run.Exit == 0) {
 			r.Mismatch("cli:exit-disagrees-with-library:"+inv.Sub, fmt.Sprintf("%s: exit=%d library=%s(%q)", desc, run.Exit, lib.Class, lib.Err), rec)
